@@ -33,7 +33,7 @@ def run(ctx):
         for s in range(2):
             ctx.stream(f"proofs-s{s}", "c05", "Driver/C05.lean", n=30000, seed=ctx.seed * 1000 + 51 + s, args=["-mut", 0, "-expect", EXPECT], timeout=3000, drv_timeout=3000)
     else:
-        ctx.stream("proofs", "c05", "Driver/C05.lean", n=3500, args=["-mut", MUT, "-expect", EXPECT])
+        ctx.stream("proofs", "c05", "Driver/C05.lean", n=6500, args=["-mut", MUT, "-expect", EXPECT])
 
 
 def search(ctx):
